@@ -415,6 +415,7 @@ struct DomExec {
     bool copy_str = op.A(2) & 1;
     JVal mv = *src.m; mv.clear_maps();
     dst.n->CopyFrom(*src.n, d.GetAllocator(), copy_str);
+    if ((chk & CHK_LEDGER) && (const void*)dst.n != (const void*)src.n) check_copy_independent(*src.n, *dst.n, copy_str);
     *dst.m = std::move(mv);
     ob = "copy";
     probe("copyfrom");
